@@ -1067,7 +1067,10 @@ class Bench:
             if r.margin is not None and r.reason == 'higher than current' and cond < F(1, 10) and -r.margin > F(2, 100) + 3 * cond:
                 sure_higher = True
             if r.margin is not None and r.reason == 'exceeds capacity':
-                status = 'must_refuse' if -r.margin > (F(1, 10 ** 4) + 3 * cond) * (pre.cap or 1) else 'dont_care'
+                # (+ the absolute band of a capacity test on this vessel: at sub-nanolitre scale the library's volume
+                # bookkeeping - enzyme volumes rounded in litres - is coarser than 1e-4 of the capacity)
+                status = 'must_refuse' if -r.margin > (F(1, 10 ** 4) + 3 * cond) * (pre.cap or 1) + self.band_cap(pre) + W.tol_volume(pre) \
+                    else 'dont_care'
         coarse = ill and status == 'must_accept' and cond < F(1, 10)
         if ill and status != 'dont_care' and not sure_higher:
             status = 'dont_care'
